@@ -18,6 +18,7 @@ import RTV.Drv.DtPeriod
 import RTV.Drv.Holiday
 import RTV.Drv.Durations
 import RTV.Drv.TimePeriod
+import RTV.Drv.DtExtract
 /-! Model driver: one operation per input line (tab-separated), one answer line per operation.
 Run compiled (`.lake/build/bin/rtvdriver`) or with `lake env lean --run Driver.lean`. -/
 open RTV.Drv
@@ -39,6 +40,7 @@ def dispatch (line : String) : String :=
       <|> dispatchHoliday op args
       <|> dispatchDurations op args
       <|> dispatchTimePeriod op args
+      <|> dispatchDtExtract op args
       <|> dispatchDtRes op args
       <|> dispatchNum op args
       <|> dispatchNumFrac op args
